@@ -12,6 +12,7 @@ CONSTANTS
   Timer = FALSE
   EmitMode = "state"
   Record = TRUE
+  Eager = TRUE
 VIEW View0
 INVARIANTS TypeOK PerSeriesOrder NoDup NoDropLeak Conservation ShardFifo Complete EmitState EmitFinal
 ACTION_CONSTRAINT Emit
